@@ -6,4 +6,6 @@ require github.com/theQRL/go-qrllib v0.0.0
 
 require golang.org/x/crypto v0.17.0
 
+require github.com/gopherjs/gopherjs v1.18.0-beta1.0.20220817214357-b972ef3adc13 // indirect
+
 replace github.com/theQRL/go-qrllib => /repo
